@@ -466,7 +466,37 @@ def replay_load_immediate(clause, model):
     return dict(out, confirmed=False, observed="every tried value assembles and loads the right value")
 
 
+def args_iterable_harness(ctx):
+    """`args` is declared Iterable: a tuple, a list, a generator or any single-pass iterable of the same values give the same patch
+    (same declared constraints, same text).  E over every module kind CallPatch supports x 5 kinds of iterable x 0..3 arguments."""
+    kinds = [(n, isa, ff) for n, isa, ff in X86_ABIS] + [("ARM64-ELF", gtirb.Module.ISA.ARM64, gtirb.Module.FileFormat.ELF)]
+    name, isa, ff = kinds[ctx.choose(len(kinds), "module")]
+    how = ["list", "generator", "iter-of-tuple", "map-object", "zip-derived"][ctx.choose(5, "kind-of-iterable")]
+    n = ctx.choose(4, "n-args")
+    mod, callee, syms = mk_module(isa, ff)
+    vals = [5, syms[0] if syms else 7, 0x1234][:n]
+
+    def make(kind):
+        if kind == "tuple":
+            return tuple(vals)
+        return {"list": list(vals), "generator": (v for v in vals), "iter-of-tuple": iter(tuple(vals)), "map-object": map(lambda v: v, vals),
+                "zip-derived": (v for v, _ in zip(vals, range(len(vals))))}[kind]
+
+    def describe(kind):
+        p = CP.CallPatch(callee, make(kind))
+        c = p.constraints
+        ictx = InsertionContext(module=mod, function=None, block=None, offset=0, stack_adjustment=0)
+        return (sorted(c.clobbers_registers), c.clobbers_flags, c.align_stack, c.preserve_caller_saved_registers, p.get_asm(ictx), p.get_asm(ictx))
+    want = describe("tuple")
+    got = describe(how)
+    ctx.cover("enumerated")
+    ctx.prove("CallPatch/args-may-be-any-iterable-of-the-same-values", z3.BoolVal(got == want),
+              note="%s, %d args as %s: constraints %s text %r; as a tuple: constraints %s text %r" % (name, n, how, got[:4], got[4][:60], want[:4], want[4][:60]))
+    ctx.prove("CallPatch/the-same-patch-gives-the-same-text-twice", z3.BoolVal(got[4] == got[5] and want[4] == want[5]))
+
+
 def jobs(tier="quick", seed=0):
+    yield Job("C17/args-iterable", args_iterable_harness, kind="E", func="gtirb_rewriting.patches.calls:CallPatch.__init__ / _CallPatchImpl._create_passed_args", expect_cover=("enumerated",))
     yield Job("C17/align_address", align_address_harness, setup=lambda: shims.installed([UT]), kind="E", func="gtirb_rewriting.utils:align_address")
     yield Job("C17/refusals", refusals_harness, kind="D", func="gtirb_rewriting.patches.calls:CallPatch.__init__")
     pats = ["int", "mixed", "callable"] if tier == "quick" else ["int", "sym", "mixed", "callable"]
